@@ -75,6 +75,7 @@ theorem C18_rerun_partial (Y : YieldFn) (F : BodyFn) (ts : List PTask) (w : Worl
     (t : Nat) (post : List Nat) (h0 : initSess ts w = some s0) (h1 : loop Y F s0 pre = .ok sm)
     (h2 : loop Y F sm (t :: post) = .ok s')
     (tk : PTask) (hf : findTask sm.tasks t = some tk) (hng : tk.gen = false) (hfm : t ∉ sm.failMarks)
+    (hrn : t ∉ (setupProvisional { sm with so := sm.so.take [tv t] } t).renewed)
     (π : Pat) (hsl : (⟨π, none⟩ : Slot) ∈ tk.pdeps) (n : Nat) (hn : n ∈ π.glob sm.w.fs)
     (hch : hasChanged sm.w t (nv n) (lookup sm.w.fs n) = true)
     (hre : (setupProvisional { sm with so := sm.so.take [tv t] } t).stop = false) :
@@ -82,7 +83,7 @@ theorem C18_rerun_partial (Y : YieldFn) (F : BodyFn) (ts : List PTask) (w : Worl
   have hi : LInv ts sm ([] ++ pre) := loop_inv pre s0 sm [] (initSess_inv h0) h1
   obtain ⟨hs, _, hl, _, _⟩ := loop_cons h2
   have hg := hi.good hs
-  generalize hsa : ({ sm with so := sm.so.take [tv t] } : Prov.Sess) = sa at hre
+  generalize hsa : ({ sm with so := sm.so.take [tv t] } : Prov.Sess) = sa at hre hrn
   have hga : sa.stop = false → Good sa (([] ++ pre).map tv ++ [tv t]) := fun _ => by
     subst hsa
     exact ⟨hg.dag, by obtain ⟨f, hf, hr⟩ := hg.reach; exact ⟨f, hf, Reach.ready 1 [tv t] hr hl⟩, hg.nodes⟩
@@ -114,7 +115,7 @@ theorem C18_rerun_partial (Y : YieldFn) (F : BodyFn) (ts : List PTask) (w : Worl
   have hscan := scanP_changed (toProject (setupProvisional sa t).tasks) (setupProvisional sa t).g (setupProvisional sa t).w
     (provNodes (setupProvisional sa t).tasks) t (nv n) hpred hch' (neighbours (setupProvisional sa t).g t) false
     (by unfold neighbours; simp [hpred])
-  have hrp := runPhases_not_unchanged Y F sa t tk hfa hng hfma hscan
+  have hrp := runPhases_not_unchanged Y F sa t tk hfa hng hfma hrn hscan
   unfold protocol
   have hfr := reportChain_frame (runPhases Y F sa t).1 t (runPhases Y F sa t).2
   rcases hrp with h | h
@@ -222,6 +223,7 @@ theorem C18_generated (Y : YieldFn) (F : BodyFn) (ts : List PTask) (w : World) (
     (g : Nat) (post : List Nat) (h0 : initSess ts w = some s0) (h1 : loop Y F s0 pre = .ok sm)
     (h2 : loop Y F sm (g :: post) = .ok s')
     (G : PTask) (hG : findTask sm.tasks g = some G) (hgen : G.gen = true) (hnf : G.fails = false) (hfm : g ∉ sm.failMarks)
+    (hrn : g ∉ (setupProvisional { sm with so := sm.so.take [tv g] } g).renewed)
     (hend : s'.stop = false ∧ s'.crashed = false ∧ s'.so.isActive = false)
     (hcoll : ∀ x ∈ Y g (G.pdeps.map (fun sl => sl.res.getD (sl.pat.glob sm.w.fs))), x.uncollectable = false)
     (k : PTask) (hk : k ∈ Y g (G.pdeps.map (fun sl => sl.res.getD (sl.pat.glob sm.w.fs))))
@@ -260,7 +262,7 @@ theorem C18_generated (Y : YieldFn) (F : BodyFn) (ts : List PTask) (w : World) (
   -- the defined task is in `session.tasks` after the generator's protocol, and stays known
   have hkin : k ∈ (stepOf Y F sm g).tasks := by
     show k ∈ (protocol Y F { sm with so := sm.so.take [tv g] } g).tasks
-    refine protocol_gen_tasks Y F { sm with so := sm.so.take [tv g] } g G hG hgen hnf hfm ?_ k ?_
+    refine protocol_gen_tasks Y F { sm with so := sm.so.take [tv g] } g G hG hgen hnf hfm hrn ?_ k ?_
     · rw [received_resolvedDeps]; exact hcoll
     · rw [received_resolvedDeps]; exact hk
   have hknown : (findTask s'.tasks k.id).isSome := (loop_mono post _ s' h5).2 _ (findTask_isSome_of_mem hkin)
@@ -305,7 +307,7 @@ set_option maxRecDepth 8000 in
 /-- `C18_generated`, `C18_producer_first`, `C18_order`, `C18_gen_once` instantiated on that build -/
 example : 21001 ∈ [3, 21000, 21001] ∧ (∃ o, (21001, o) ∈ exS'.reports) ∧ exS'.log.count 21001 ≤ 1 :=
   C18_generated exY f11F exTs exW exS0 exSm exS' [1] 2 [3, 21000, 21001] (by rfl) (by rfl) (by rfl) exGen (by decide +kernel) rfl rfl
-    (by decide +kernel) (by decide +kernel) (by decide +kernel) { id := 21001, src := 9000, deps := [1001], prods := [21001] } (by decide +kernel) (by decide +kernel)
+    (by decide +kernel) (by decide +kernel) (by decide +kernel) (by decide +kernel) { id := 21001, src := 9000, deps := [1001], prods := [21001] } (by decide +kernel) (by decide +kernel)
 
 set_option maxRecDepth 8000 in
 example : exProd.id ∈ [1, 2] :=
@@ -326,7 +328,7 @@ def f11S3' : Prov.Sess := match loop f11Y f11F f11S3 [1] with | .ok s => s | .er
 set_option maxRecDepth 8000 in
 example : (stepOf f11Y f11F f11S3 1).log = f11S3.log ++ [1] ∨ (1, Outcome.fail) ∈ (stepOf f11Y f11F f11S3 1).reports :=
   C18_rerun_partial f11Y f11F [f11Task] f11W3 f11S3 f11S3 f11S3' [] 1 [] (by rfl) (by rfl) (by rfl) f11Task (by decide +kernel) rfl
-    (by decide +kernel) ⟨500000, 1000, 5⟩ (by decide) 1002 (by decide +kernel) (by decide +kernel) (by decide +kernel)
+    (by decide +kernel) (by decide +kernel) ⟨500000, 1000, 5⟩ (by decide) 1002 (by decide +kernel) (by decide +kernel) (by decide +kernel)
 
 set_option maxRecDepth 8000 in
 /-- … and indeed it is the first disjunct: the body runs and receives the grown set -/
@@ -341,6 +343,7 @@ theorem C18_rerun_runs (Y : YieldFn) (F : BodyFn) (ts : List PTask) (w : World) 
     (t : Nat) (post : List Nat) (h0 : initSess ts w = some s0) (h1 : loop Y F s0 pre = .ok sm)
     (h2 : loop Y F sm (t :: post) = .ok s')
     (tk : PTask) (hf : findTask sm.tasks t = some tk) (hng : tk.gen = false) (hfm : t ∉ sm.failMarks)
+    (hrn : t ∉ (setupProvisional { sm with so := sm.so.take [tv t] } t).renewed)
     (π : Pat) (hsl : (⟨π, none⟩ : Slot) ∈ tk.pdeps) (n : Nat) (hn : n ∈ π.glob sm.w.fs)
     (hch : hasChanged sm.w t (nv n) (lookup sm.w.fs n) = true)
     (hre : (setupProvisional { sm with so := sm.so.take [tv t] } t).stop = false)
@@ -351,7 +354,7 @@ theorem C18_rerun_runs (Y : YieldFn) (F : BodyFn) (ts : List PTask) (w : World) 
   have hi : LInv ts sm ([] ++ pre) := loop_inv pre s0 sm [] (initSess_inv h0) h1
   obtain ⟨hs, _, hl, _, _⟩ := loop_cons h2
   have hg := hi.good hs
-  generalize hsa : ({ sm with so := sm.so.take [tv t] } : Prov.Sess) = sa at hre
+  generalize hsa : ({ sm with so := sm.so.take [tv t] } : Prov.Sess) = sa at hre hrn
   have hga : sa.stop = false → Good sa (([] ++ pre).map tv ++ [tv t]) := fun _ => by
     subst hsa
     exact ⟨hg.dag, by obtain ⟨f, hf, hr⟩ := hg.reach; exact ⟨f, hf, Reach.ready 1 [tv t] hr hl⟩, hg.nodes⟩
@@ -413,7 +416,7 @@ theorem C18_rerun_runs (Y : YieldFn) (F : BodyFn) (ts : List PTask) (w : World) 
         have : (resolvedDeps sa.w.fs tk).src = tk.src := by unfold resolvedDeps; split <;> rfl
         rw [this]; exact hsrc)
   have hscan := scan_cases _ hne1 hne2
-  have hrp := runPhases_changed Y F sa t tk hfa hng hfma hscan
+  have hrp := runPhases_changed Y F sa t tk hfa hng hfma hrn hscan
   unfold protocol
   rw [(reportChain_frame _ t _).2.2.2.2.1]
   exact hrp
@@ -477,8 +480,9 @@ What it then defines is `Y g (lists received)`: the same tasks as in the previou
 theorem C18_generator_always_runs (Y : YieldFn) (F : BodyFn) (ts : List PTask) (w : World) (s0 sm s' : Prov.Sess)
     (pre : List Nat) (g : Nat) (post : List Nat) (_h0 : initSess ts w = some s0) (_h1 : loop Y F s0 pre = .ok sm)
     (_h2 : loop Y F sm (g :: post) = .ok s') (G : PTask) (hG : findTask sm.tasks g = some G) (hgen : G.gen = true)
-    (hfm : g ∉ sm.failMarks) : (stepOf Y F sm g).log = sm.log ++ [g] :=
-  protocol_gen_log Y F { sm with so := sm.so.take [tv g] } g G hG hgen hfm
+    (hfm : g ∉ sm.failMarks) (hrn : g ∉ (setupProvisional { sm with so := sm.so.take [tv g] } g).renewed) :
+    (stepOf Y F sm g).log = sm.log ++ [g] :=
+  protocol_gen_log Y F { sm with so := sm.so.take [tv g] } g G hG hgen hfm hrn
 
 /-- **C18_generated_incremental** (two builds; the C03 shape for tasks without pattern arguments — in particular the
 copy tasks a generator defines per matched file, and their plain dependants).
@@ -501,7 +505,7 @@ theorem C18_generated_incremental (Y : YieldFn) (F : BodyFn)
     (hcrA : (stepOf Y F smA k).crashed = false)
     (tsB : List PTask) (fsB : FS) (s0B smB sB : Prov.Sess) (preB postB : List Nat)
     (h0B : initSess tsB ⟨fsB, sA.w.db⟩ = some s0B) (h1B : loop Y F s0B preB = .ok smB) (h2B : loop Y F smB (k :: postB) = .ok sB)
-    (hKB : findTask smB.tasks k = some K) (huniq : ∀ u ∈ smB.tasks, u.id = k → u = K) (hfmB : k ∉ smB.failMarks) :
+    (hKB : findTask smB.tasks k = some K) (huniq : ∀ u ∈ smB.tasks, u.id = k → u = K) (hfmB : k ∉ smB.failMarks) (hrnB : k ∉ smB.renewed) :
     ((∀ x ∈ K.allDeps ++ [K.src] ++ K.allProds, lookup smB.w.fs x = lookup (stepOf Y F smA k).w.fs x) →
       (stepOf Y F smB k).log = smB.log ∧ (stepOf Y F smB k).reports = smB.reports ++ [(k, Outcome.skipUnchanged)]) ∧
     (∀ d ∈ K.allDeps, lookup smB.w.fs d ≠ lookup (stepOf Y F smA k).w.fs d →
@@ -547,7 +551,7 @@ theorem C18_generated_incremental (Y : YieldFn) (F : BodyFn)
         exact ⟨h, by rw [hsame K.src (by simp)]; exact e1, by rw [hid, hdb]; rw [hid] at e2; exact e2⟩
       · obtain ⟨h, e1, e2⟩ := hrecA.2.2 p hp
         exact ⟨h, by rw [hsame p (by simp [hp])]; exact e1, by rw [hid, hdb]; rw [hid] at e2; exact e2⟩
-    have := plain_skip Y F sb k K mB hdagB hKB hng hpd hpp htwB hfmB huniq hafter hrecB
+    have := plain_skip Y F sb k K mB hdagB hKB hng hpd hpp htwB hfmB hrnB huniq hafter hrecB
     rw [hstepB, this]
     exact ⟨rfl, rfl⟩
   · obtain ⟨h, e1, e2⟩ := hrecA.1 d hd
@@ -561,7 +565,7 @@ theorem C18_generated_incremental (Y : YieldFn) (F : BodyFn)
         have : c ≠ h := by
           intro e; apply hne; rw [hcur, e1, e]
         simpa using fun e => this e.symm
-    have := plain_runs Y F sb k K mB hdagB hKB hng hpd hpp htwB hfmB huniq hafter d hd hch hex hsrc
+    have := plain_runs Y F sb k K mB hdagB hKB hng hpd hpp htwB hfmB hrnB huniq hafter d hd hch hex hsrc
     rw [hstepB]
     exact this
 
@@ -571,7 +575,7 @@ set_option maxRecDepth 8000 in
 /-- `C18_rerun_runs` on the F11 project after a file was dropped in: all side conditions hold. -/
 example : (stepOf f11Y f11F f11S3 1).log = f11S3.log ++ [1] :=
   C18_rerun_runs f11Y f11F [f11Task] f11W3 f11S3 f11S3 f11S3' [] 1 [] (by rfl) (by rfl) (by rfl) f11Task (by decide +kernel) rfl
-    (by decide +kernel) ⟨500000, 1000, 5⟩ (by decide) 1002 (by decide +kernel) (by decide +kernel) (by decide +kernel)
+    (by decide +kernel) (by decide +kernel) ⟨500000, 1000, 5⟩ (by decide) 1002 (by decide +kernel) (by decide +kernel) (by decide +kernel)
     (by decide) rfl (by decide +kernel) (by decide +kernel)
 
 def exFull : Prov.Sess := match loop exY f11F exS0 [1, 2, 3, 21000, 21001] with | .ok s => s | .error _ => exDummy
@@ -595,7 +599,7 @@ example : (stepOf exY f11F exSmB 21000).log = exSmB.log ∧
   (C18_generated_incremental exY f11F exTs exW exS0 exSmA exFull [1, 2, 3] 21000 [21001] (by rfl) (by rfl) (by rfl)
     exK (by decide +kernel) rfl rfl rfl rfl (by decide +kernel) (by decide +kernel) (by decide +kernel)
     exTs exFull.w.fs exB0 exSmB exSB [1, 2, 3] [21001] (by rfl) (by rfl) (by rfl)
-    (by decide +kernel) (by decide +kernel) (by decide +kernel)).1 (by decide +kernel)
+    (by decide +kernel) (by decide +kernel) (by decide +kernel) (by decide +kernel)).1 (by decide +kernel)
 
 set_option maxRecDepth 8000 in
 /-- in that second build the generator ran again (it is the only body that did) -/
@@ -610,7 +614,7 @@ example : (stepOf exY f11F exSmB' 21000).log = exSmB'.log ++ [21000] :=
   (C18_generated_incremental exY f11F exTs exW exS0 exSmA exFull [1, 2, 3] 21000 [21001] (by rfl) (by rfl) (by rfl)
     exK (by decide +kernel) rfl rfl rfl rfl (by decide +kernel) (by decide +kernel) (by decide +kernel)
     exTs (Engine.insert exFull.w.fs 1000 77) exB0' exSmB' exSB' [1, 2, 3] [21001] (by rfl) (by rfl) (by rfl)
-    (by decide +kernel) (by decide +kernel) (by decide +kernel)).2 1000 (by decide) (by decide +kernel) (by decide +kernel)
+    (by decide +kernel) (by decide +kernel) (by decide +kernel) (by decide +kernel)).2 1000 (by decide) (by decide +kernel) (by decide +kernel)
     (by decide +kernel)
 
 end Pytask
